@@ -398,8 +398,61 @@ def check_order_r_broadcast(ns, res):
 
 
 # ------------------------------------------------------------------ driver
+def check_forms(res):
+    """sample sizes / order numbers given in any integer dtype (narrow, unsigned), as lists or as numpy scalars give the
+    result of the same values as Python ints - bit for bit (the functions compute in double precision)"""
+    from pyyeti import stats
+
+    msgs = []
+    nvals = [2, 3, 10, 21, 100, 127]
+    for p, c in ((0.99, 0.9), (0.9, 0.5), (0.5, 0.95)):
+        base_s = np.asarray(stats.ksingle(p, c, list(nvals)), float)  # (array calls: kdouble's Newton loop runs until ALL entries converge,
+        base_d = np.asarray(stats.kdouble(p, c, list(nvals)), float)  #  so array and scalar calls may differ in the last bits)
+        for dt in (np.int8, np.uint8, np.int16, np.uint16, np.int32, np.int64, np.uint64, np.float32, float):
+            arr = np.array(nvals, dtype=dt)
+            nm = np.dtype(dt).name
+            res.ev("forms/k/%s" % nm)
+            for fn, base in ((stats.ksingle, base_s), (stats.kdouble, base_d)):
+                try:
+                    got = np.asarray(fn(p, c, arr), float)
+                except Exception as e:  # noqa
+                    msgs.append(("forms", "%s(p=%g, c=%g, n as %s array) raised %r" % (fn.__name__, p, c, nm, e)))
+                    continue
+                if got.shape != base.shape or not np.array_equal(got, base):
+                    msgs.append(("forms", "%s(p=%g, c=%g) with n given as a %s array is %s; with Python ints %s" % (fn.__name__, p, c, nm, got.tolist(), base.tolist())))
+        for dt in (np.int8, np.uint8, np.int16, np.uint16, np.int32, np.int64):
+            nm = np.dtype(dt).name
+            res.ev("forms/order/%s" % nm)
+            for r in (1, 2, 5):
+                calls = {
+                    "n": (lambda r_: stats.order_stats("n", p=p, c=c, r=r_)),
+                    "c": (lambda r_: stats.order_stats("c", p=p, n=dt(120) if r_ is not r else 120, r=r_)),
+                    "p": (lambda r_: stats.order_stats("p", c=c, n=dt(120) if r_ is not r else 120, r=r_)),
+                }
+                for which, f in calls.items():
+                    try:
+                        want = f(r)
+                        got = f(dt(r))
+                        gota = np.asarray(f(np.array([r, r], dtype=dt))) if which == "n" else None
+                    except Exception as e:  # noqa
+                        msgs.append(("forms", "order_stats(%r, p=%g, c=%g) with r (and n) given as %s raised %r" % (which, p, c, nm, e)))
+                        continue
+                    if not np.array_equal(np.asarray(got), np.asarray(want)) or (gota is not None and not np.array_equal(gota, [want, want])):
+                        msgs.append(("forms", "order_stats(%r, p=%g, c=%g, r=%d) given as %s is %s; with Python ints %s" % (which, p, c, r, nm, got, want)))
+            for n in (1, 50, 120):
+                try:
+                    want = stats.order_stats("r", p=p, c=c, n=n)
+                    got = stats.order_stats("r", p=p, c=c, n=dt(n))
+                except Exception as e:  # noqa
+                    msgs.append(("forms", "order_stats('r', n as %s) raised %r" % (nm, e)))
+                    continue
+                if got != want:
+                    msgs.append(("forms", "order_stats('r', p=%g, c=%g, n=%d) given as %s is %s; with a Python int %s" % (p, c, n, nm, got, want)))
+    return msgs
+
+
 def shards(tier, seed):
-    out = []
+    out = [dict(part="forms")]
     ns = nlist(tier)
     for p, c in itertools.product(P, P):
         for part in ("ksingle", "kdouble", "order_r"):
@@ -434,6 +487,8 @@ def _run(sh, res):
         return check_order_pc(sh["c"], sh["ns"], res)
     if part == "monotone":
         return check_monotone(sh["ns"], res)
+    if part == "forms":
+        return check_forms(res)
     return check_order_r_broadcast(sh["ns"], res)
 
 
